@@ -20,8 +20,18 @@ ASSUMPTIONS = ['model of the parser stack validated only by this correspondence'
                'parser returns normally); C06_fuel_enough gives the bound for every context',
                '"bounded time" is proved as termination of the model within an explicit recursion budget; wall-clock time '
                'of the real code is only guarded by the per-case timeout of the correspondence']
-PARTIAL = ['C06_prefix (the nodes parsed before the first strict error are still returned) has no Coq theorem: it is '
-           'decided by the correspondence of the exact tolerant trees and by the conservative oracle',
+PARTIAL = ['C06_prefix (the nodes parsed before the first strict error are still returned) is proved in Coq for valid content '
+           'that is a document of the CORE grammar of C02 (Doc/DocGrammar.v; all such documents, all contexts) written at top '
+           'level: C06_prefix_closing_partial (document, then a stray } / \\) / \\] / \\end{x} - stray_wf excludes $ and $$ '
+           '(k <> MDollar, k <> MDollars): they are not closing tokens, after a document they open a formula -, then ANY garbage: the tolerant '
+           'result is EXACTLY the document\'s node list tree_of, trailing whitespace included, reader right after the token), '
+           'C06_prefix_partial / C06_prefix_items_partial (document, then ANY continuation that does not start with a letter or '
+           'whitespace when the document has no trailing whitespace; needs ctx_wf: the result is a node list that begins with '
+           'the document\'s settled nodes = tree_of minus a text run still pending at the end, which the continuation may '
+           'extend: C06_tree_settled_partial, example C06_prefix_trailing_run), C06_collector_keeps_nodes (every tolerant '
+           'collector, any input: pushed nodes are never dropped). Valid content outside the core grammar (environments, '
+           'optional / star arguments, specials, verbatim) or nested inside an unfinished construct is covered by the '
+           'correspondence of the exact tolerant trees and by the conservative oracle only',
            'C06_terminates / C06_total need ctx_wf (at most 10 argument slots per spec): the fixed fuel of the model; '
            'C06_fuel_enough gives the bound for every context']
 REFUTED = []
